@@ -5,9 +5,11 @@ package main
 
 import (
 	"bytes"
+	"encoding/hex"
 	"fmt"
 	"math"
 	"net"
+	"os"
 	"time"
 
 	"gitlab.com/yawning/obfs4.git/internal/zzverif/mc"
@@ -210,8 +212,16 @@ func runShape(c *mc.Ctx, sh shape, br *o4h.Bridge, seed int64, quick bool) {
 	warm := 0
 	finished := false
 	var recs []wrec
+	lastSize := 0
+	var lastConn net.Conn
+	lastDists := func() ([]int, []int, bool) {
+		if lastConn == nil {
+			return nil, nil, false
+		}
+		return obfs4.VerifDists(lastConn)
+	}
 	var wantPayload []byte
-	res := sched.Run(c, sched.Options{NoPreempt: true, MaxSteps: 20_000_000}, func() {
+	res := sched.Run(c, sched.Options{NoPreempt: true, MaxSteps: 400_000}, func() {
 		s := sched.Cur()
 		var conn net.Conn
 		if sh.role == "server" {
@@ -273,6 +283,7 @@ func runShape(c *mc.Ctx, sh shape, br *o4h.Bridge, seed int64, quick bool) {
 		if realErr != nil {
 			return
 		}
+		lastConn = conn
 		lenVals, iatVals, ok := obfs4.VerifDists(conn)
 		if !ok {
 			realErr = fmt.Errorf("not an obfs4 connection")
@@ -306,11 +317,19 @@ func runShape(c *mc.Ctx, sh shape, br *o4h.Bridge, seed int64, quick bool) {
 					T0 = lenVals[ce.idx]
 				}
 				size = T0 - 21 + sh.size
+				if size < 1 && sh.iat == 2 && T0 > 0 {
+					// paranoid mode writes T0-byte pieces: any framed length
+					// that ends k short of a multiple of T0 is "near target"
+					for size < 1 {
+						size += T0
+					}
+				}
 				if size < 1 {
 					continue
 				}
 			}
 			data := o4h.Pattern('D', 0, size)
+			lastSize = size
 			stream.Script = rnd.ScriptSample(ce.idx, ce.coin)
 			w0 := len(realWire.Out.Writes)
 			t0 := s.Now()
@@ -359,7 +378,12 @@ func runShape(c *mc.Ctx, sh shape, br *o4h.Bridge, seed int64, quick bool) {
 		fail(c, "no-panic", "shape/panic", "%s", res.Panics[0])
 		return
 	}
-	if !finished && !c.Failed() && realErr == nil && refErr == nil {
+	if res.Livelock {
+		lv, _, _ := lastDists()
+		fail(c, "terminates", fmt.Sprintf("shape/livelock/iat%d/table=%v", sh.iat, lv), "%s Write(%d bytes) in iat-mode %d did not terminate within the step budget (%d wire writes so far); length table %v", sh.role, lastSize, sh.iat, len(realWire.Out.Writes), lv)
+		return
+	}
+	if !finished && !c.Failed() && realErr == nil && refErr == nil && !res.Livelock {
 		fail(c, "terminates", "shape/stuck", "the real %s never returned from a call: %+v", sh.role, res.Blocked)
 		return
 	}
@@ -403,7 +427,8 @@ func runShape(c *mc.Ctx, sh shape, br *o4h.Bridge, seed int64, quick bool) {
 		return
 	}
 	if res.Livelock {
-		fail(c, "terminates", "shape/livelock", "Write did not terminate")
+		lv, _, _ := lastDists()
+		fail(c, "terminates", fmt.Sprintf("shape/livelock/iat%d/table=%v", sh.iat, lv), "%s Write(%d bytes) in iat-mode %d did not terminate within the step budget (%d wire writes so far); length table %v", sh.role, lastSize, sh.iat, len(realWire.Out.Writes), lv)
 		return
 	}
 	if rs.RxErr != nil {
@@ -522,8 +547,73 @@ func findBridges(seed int64, bias bool, iat int) (withZero, without *o4h.Bridge,
 	return
 }
 
+// smallTableBridges returns bridges whose length table has exactly one value
+// (the first K found by a search that does not depend on VERIF_SEED, so that
+// scenario names and failure keys are stable).
+func smallTableBridges(K int, bias bool, iat int) []*o4h.Bridge {
+	id := o4h.NewBridge(20260926, "c09-small", iat, bias).ID
+	if os.Getenv("VERIF_C09_SEARCH") != "" {
+		// one-off search that produced smallSeeds below (about 14 ms per candidate)
+		seeds := rnd.New(20260926, "c09-small-seeds")
+		near, far := 0, 0
+		for i := 0; i < 400000 && (near < 30 || far < 30); i++ {
+			sd := seeds.Bytes(24)
+			d := ref.NewDist(sd, 0, 1448, false)
+			if len(d.Values) != 1 {
+				continue
+			}
+			v := d.Abs()[0]
+			if v > 0 && 1469%v != 0 && v-1469%v <= 21 {
+				if near < 30 {
+					near++
+					fmt.Printf("\t{%q, %d, true},\n", hex.EncodeToString(sd), v)
+				}
+			} else if far < 30 {
+				far++
+				fmt.Printf("\t{%q, %d, false},\n", hex.EncodeToString(sd), v)
+			}
+		}
+		os.Exit(0)
+	}
+	// half of them with a value v for which a maximal-overshoot burst
+	// (1448+21 extra bytes) leaves a remainder within a frame header of v
+	// again, half without
+	var near, far []*o4h.Bridge
+	for _, e := range smallSeeds {
+		sd, _ := hex.DecodeString(e.seed)
+		b := &o4h.Bridge{ID: id, Seed: sd, IAT: iat, Bias: bias}
+		if e.near && len(near) < K/2 {
+			near = append(near, b)
+		} else if !e.near && len(far) < K-K/2 {
+			far = append(far, b)
+		}
+	}
+	all := append(near, far...)
+	for _, b := range all {
+		if d := ref.NewDist(b.Seed, 0, 1448, bias); len(d.Values) != 1 {
+			panic("smallSeeds: not a single-value table")
+		}
+	}
+	return all
+}
+
 func main() {
 	mc.Main("C09", func(cfg *mc.Config, emit func(mc.Scenario)) {
+		// single-value tables: every write size relative to the value, all IAT modes
+		for iat := 0; iat <= 2; iat++ {
+			K := 12
+			if cfg.Thorough() {
+				K = 60
+			}
+			for bi, b := range smallTableBridges(K, false, iat) {
+				for _, size := range []int{1, 100, 1427, 3000, -1, -21, -22} {
+					sh := shape{"server", 100000 + bi, iat, false, size, ""}
+					br := b
+					emit(mc.Scenario{Name: sh.name(), Params: map[string]any{"shape": sh.name(), "table": ref.NewDist(b.Seed, 0, 1448, false).Abs()}, Weight: 3,
+						Run: func(c *mc.Ctx) { runShape(c, sh, br, cfg.Seed, !cfg.Thorough()) }})
+				}
+			}
+		}
 		for lo := 0; lo < 1448; lo += 91 {
 			hi := lo + 91
 			if hi > 1448 {
@@ -574,4 +664,73 @@ func main() {
 			}
 		}
 	})
+}
+
+// smallSeeds are DRBG seeds whose length table has exactly one value (found
+// once with VERIF_C09_SEARCH=1; the check re-derives and asserts the table).
+var smallSeeds = []struct {
+	seed string
+	v    int
+	near bool
+}{
+	{"49ede6e66d666a2b74f5e0b8a0b7c8d5483c4fba7eeca0e1", 1144, false},
+	{"4b51e6cb297c4e166c7287dcd2eee7fe95c682e58656471c", 110, false},
+	{"9e54d17b478683573ada8f1df98be9c1c78cbf949d042816", 648, false},
+	{"231d61acbbdd3a5d1554932a9bd0c6b2c8cc899740b2dbfc", 1246, false},
+	{"43b404f21d1e698bb09fb9401c12b6dc09d77f33415c29c8", 238, false},
+	{"db3d7b713c85d8f34ab631c983fff8de9ceb8f57d157489d", 1208, false},
+	{"a77fb14c9d4cfcced1d5b5edb451cc999d06bed93d0eb48d", 678, false},
+	{"cee4e04b72aa96ea63cf11e4f5ee57680150e5604ef03e90", 38, true},
+	{"e5c73140a8ea0d8ee4d51ab32962975f6175021b7f1f798c", 705, false},
+	{"c6f061a18e7b9b950d49bfe8fd9770cf75c7c4e036f96242", 53, true},
+	{"37b7522df80b450182e0bacc1192d81c4e58e42e0b41e0a5", 906, false},
+	{"30fcc8a02b488d54c09f9b93f27623dfe9fb71038109749a", 509, false},
+	{"6b9cb012b31306d21b4c2d5c91017c35e74da741a24ec44e", 503, false},
+	{"d8f36c1965c77a578b4e35173f0ec1d0ce4c580fbfcc5b8c", 216, false},
+	{"f909d2095ab3a397835db95c3a6e6e15c5839118b409fe9c", 537, false},
+	{"89da28aaa0368a0551dacd127a01a53eab5ef83c0d11f0eb", 957, false},
+	{"577c5cdd2e6372c7a879d27b87bf7f44e95890346f063f73", 916, false},
+	{"1a22f31d74516b3b61b16779a537b4576552f659549c84a1", 884, false},
+	{"24627a8bcb5046497ebbc3939d12e56a0d20fd51f71dd6d4", 900, false},
+	{"56d9e6a89ead8614a3b508cd5ec37dd2b0067e9abfe4a75d", 1062, false},
+	{"b7d964cf84cb36a3d43ca14fac7e60d57c1c9b8135ef4c5b", 126, false},
+	{"6329249840b6ec26f46fd98316cbf6fe9f0133bd36464d0e", 570, false},
+	{"7953109c71f42687d9bc7f94418a3a0f53276ef079002004", 1268, false},
+	{"0bdbabf8709d125b520f312537e887dfb527a7a8f31a5b30", 676, false},
+	{"2df53d3ad09ef48dd06c2cc8d4ce8daeec7c508649d8cebe", 1443, false},
+	{"0682045a327cfd5dcfd10a8c0c9f25cf17c2d7c6b82fa885", 839, false},
+	{"a25185e2f2a4553908dccf6b571ceb681e545fa612c42a78", 1368, false},
+	{"4789d7b0790391bc80907f1681fd36914f1513e2bf216d10", 835, false},
+	{"c83b74d079130ff08d243065a9534a32dea6d8e585383de7", 319, false},
+	{"3c0d3f19c50b68d9e34e2e2c6270d818f0a0300cbad368f0", 703, false},
+	{"29e05e7e11cfbd5af9c481c09b3c792728ac44f0a2096bdf", 1392, false},
+	{"e1fc2f33da9fd3ee7d066ea575eda585c40165edfd870647", 1037, false},
+	{"118bf1269b33352fe39dc6f1d1e60ef037ad14ff9faf33ae", 12, true},
+	{"fd27a2c3312fe1241424b46cd4713642fa0567987b0ee44c", 165, true},
+	{"264e56cd987c537c9b5cc5df7c95ca198d6817dff9e819cf", 297, true},
+	{"3bc4abf328a4bd1aa0a36c7b58a7311d5dc2c1fb21b62d5d", 70, true},
+	{"fbac359eb2fa3e2bba4ce55248e1c462ff47171a58b67fbd", 42, true},
+	{"60105348c1f6120c3901cd8583d32bbcf8cdc31b00527f12", 297, true},
+	{"a84b65f60c0e2166aefbd2cd8fedbc22299c3de6170c4977", 39, true},
+	{"48ab5b6054f2c513de90c7d86e57c857d9d82d399ee8a962", 247, true},
+	{"ee74e234d4191044f0152ffa683f49197df9ccfa080f0c04", 22, true},
+	{"a4d257e05d88811c41228e840894fa9b167beae43d8ce589", 57, true},
+	{"20613e59d39a7d77a2a2d9f5f47d1b1d38292594f3fe1aeb", 247, true},
+	{"6709291d08f72e377bb31ab90c3f61b3fc173d81005a75cd", 3, true},
+	{"e056b364000926e61370d3507a99c8118350d7882ef2b05f", 78, true},
+	{"935ec7bd553632d5c030155863f84d421277ae4b3b2c428f", 16, true},
+	{"d07c6ff48ded06ea6203c5edb3d06ba14d9f372127ff1638", 14, true},
+	{"be203038808d95cdb9b772f524e3f8710dab0a67a76350d3", 294, true},
+	{"a1807ae4a531e295fc73430a27b3f54c91ded799e640615f", 39, true},
+	{"683d889601d1ccc428518cd74ee3daab8377eb3f6d16b1f5", 27, true},
+	{"3735d4d755d55ed64d05a51694285fb88669ce9abf1c819c", 11, true},
+	{"5effbbdf5935992e6e798ec941d085b809343cc01614f0c6", 51, true},
+	{"09bd553abe73f659d06ce254eb123af1d87652796cc02e6e", 210, true},
+	{"40409ed881e722a4bcd12d19df05119063a39952bb6c64ff", 490, true},
+	{"4c423ad754227f07d1cd2eabb79ffe6c905c2b29ab6439fb", 3, true},
+	{"cb1d1d7a6e95bc3ad16e38165fa20052d76035e8e73c3af4", 745, true},
+	{"78201b5313014e5b2f8531ef180937dcb441dcb99e0092b6", 98, true},
+	{"c409c9d48b0e29bb53c1a037f2ae77a1f760ce4ce2d89148", 124, true},
+	{"38b1fcbb1757bb6610ba8764fcb74903ecec7a2413bbabab", 134, true},
+	{"6165699f4ffdca646b524bea5833c660d09e54aa398389cd", 14, true},
 }
